@@ -53,3 +53,8 @@ Definition utf8_decode (l : list N) : list N := utf8_decode_fuel (length l) l.
 
 (* text as code points *)
 Definition mk_text (len : nat) (ws : list int) : list N := utf8_decode (mk_packed len ws).
+
+(* names used by the printer slice *)
+Definition unpack_text (bytes : list N) : list N := utf8_decode bytes.
+Definition packed_ok (len : nat) (ws : list int) : bool :=
+  (Nat.leb len (7 * length ws)) && (Nat.ltb (7 * (length ws - 1)) len || Nat.eqb (length ws) 0).
